@@ -63,6 +63,7 @@ class Exec:
             k = v.ty.kind
             if k == "bool": return v
             if k == "int": return Sym(BOOL, v.z != 0)
+            if k == "dec": return Sym(BOOL, z3.Or(z3.Not(dec_fin(v.z)), dec_val(v.z) != 0))
             if k == "str": return Sym(BOOL, z3.Length(v.z) > 0)
             if k == "opt": return Sym(BOOL, z3.Not(sort_of(v.ty).is_none(v.z)))   # payload truthiness ignored (objects)
             if k == "seqlist": return Sym(BOOL, z3.Length(v.z) > 0)
@@ -379,6 +380,17 @@ class Exec:
                 import operator
                 f = {ast.Lt: operator.lt, ast.LtE: operator.le, ast.Gt: operator.gt, ast.GtE: operator.ge}[type(op)]
                 yield s, f(x, y); continue
+            if lift(x).ty.kind == "dec" or lift(y).ty.kind == "dec":
+                # decimal comparison: exact on finite values; a non-finite operand is modelled as raising InvalidOperation
+                # (CPython raises for NaN only; over-approximating keeps the raises-only obligations sound)
+                fins = [dec_fin(lift(v).z) for v in (x, y) if lift(v).ty.kind == "dec"]
+                allfin = z3.And(*fins) if len(fins) > 1 else fins[0]
+                if feasible(s.pc, z3.Not(allfin)):
+                    sb = s.copy(); sb.pc.append(z3.Not(allfin))
+                    yield sb, Raise(self.new_builtin_exc(sb, "InvalidOperation", ["comparison involving a non-finite decimal"]))
+                s.pc.append(allfin)
+                xr, yr = to_real(x), to_real(y)
+                yield s, Sym(BOOL, {ast.Lt: xr < yr, ast.LtE: xr <= yr, ast.Gt: xr > yr, ast.GtE: xr >= yr}[type(op)]); continue
             xz, yz = lift(x).z, lift(y).z
             if lift(x).ty.kind == "str" or lift(y).ty.kind == "str": raise Unsupported("string ordering")
             z = {ast.Lt: xz < yz, ast.LtE: xz <= yz, ast.Gt: xz > yz, ast.GtE: xz >= yz}[type(op)]
@@ -423,7 +435,11 @@ class Exec:
         if isinstance(b, Sym) and b.ty.kind == "tuple" and isinstance(a, tuple): return self.equals(st, b, a)
         if isinstance(a, Sym) or isinstance(b, Sym):
             la, lb = lift(a), lift(b)
+            if "dec" in (la.ty.kind, lb.ty.kind) and {la.ty.kind, lb.ty.kind} <= {"int", "real", "dec"}:
+                fins = [dec_fin(v.z) for v in (la, lb) if v.ty.kind == "dec"]
+                return Sym(BOOL, z3.And(to_real(la) == to_real(lb), *fins))
             if la.ty.kind != lb.ty.kind and not {la.ty.kind, lb.ty.kind} <= {"int", "real"}: return False
+            if la.ty.kind != lb.ty.kind: return Sym(BOOL, to_real(la) == to_real(lb))
             return Sym(BOOL, la.z == lb.z)
         if isinstance(a, Ref) or isinstance(b, Ref): return a == b if (isinstance(a, Ref) and isinstance(b, Ref)) else False
         return a == b
@@ -722,9 +738,34 @@ class Exec:
             return
         raise Unsupported("assign target %s" % type(tgt).__name__)
 
+    def _if_convertible(self, node, st):
+        """`if c: x = e` (no else) on a scalar local: merged into x = ite(c, e, x) instead of forking (same semantics,
+        fewer paths). Only when e is a name / constant and x is already bound to a scalar of the same kind."""
+        if node.orelse or len(node.body) != 1: return None
+        a = node.body[0]
+        if not isinstance(a, ast.Assign) or len(a.targets) != 1 or not isinstance(a.targets[0], ast.Name): return None
+        if not isinstance(a.value, (ast.Name, ast.Constant)): return None
+        if ast.unparse(a) in self.stmt_hooks or ast.unparse(a) in self.stmt_hooks_before: return None
+        env = st.frames[-1].env
+        if a.targets[0].id not in env: return None
+        return a
+
     def st_If(self, node, st):
+        conv = self._if_convertible(node, st)
         for s, c in self.ev(node.test, st):
             if isinstance(c, Raise): yield s, ("raise", c.exc); continue
+            if conv is not None:
+                t = self.truth(c)
+                if isinstance(t, Sym):
+                    env = s.frames[-1].env; old = env[conv.targets[0].id]
+                    try:
+                        newv = self.lookup(s, conv.value.id) if isinstance(conv.value, ast.Name) else conv.value.value
+                        lo, ln = lift(old), lift(newv)
+                    except (TypeError, Unsupported):
+                        lo = ln = None
+                    if lo is not None and lo.ty == ln.ty and lo.ty.kind in ("int", "bool", "str", "real", "dec"):
+                        env[conv.targets[0].id] = Sym(lo.ty, z3.If(t.z, ln.z, lo.z))
+                        yield s, ("next",); continue
             for s2, b in self.fork(s, c):
                 yield from self.exec_block(node.body if b else node.orelse, s2)
 
